@@ -78,6 +78,13 @@ class Transition:
         if isinstance(self.next_obs, (dict, tuple)):
             self.next_obs = to_tensordict(self.next_obs)
 
+        # Scalar observations (e.g. Discrete spaces in non-vectorised environments)
+        if isinstance(self.obs, (Number, np.number)):
+            self.obs = to_torch_tensor(self.obs)
+
+        if isinstance(self.next_obs, (Number, np.number)):
+            self.next_obs = to_torch_tensor(self.next_obs)
+
         # Convert all data to torch tensors with proper dtype
         self.action = to_torch_tensor(self.action)
         self.done = to_torch_tensor(self.done)
